@@ -263,6 +263,9 @@ def f62():
 
 case("F62 unknown labels, two of three label axes reduced", f62, lambda r: r == [[2.0, 2.0, 0.0], [0.0, 0.0, 4.0]], refusal_ok=True)
 
+# F63
+case("F63 chunked std of a group of equal values", lambda: groupby_reduce(da.from_array(np.full(3, -17477.209205516196), chunks=2), np.zeros(3, int), func="std", engine="numpy")[0].compute().tolist(), lambda r: r == [0.0])
+
 bad = 0
 for name, verdict in results:
     print(f"{name:55s} {verdict}")
